@@ -795,9 +795,32 @@ Definition is_child_content_write (c : ccfg) (e : ev) : bool :=
   | None => false
   end.
 
+(* the claim of the ControllerRevisions (before the hook) is part of "its ControllerRevision writes": an
+   adoption or release whose last attempt was refused (the object being gone apart) ends the sync *)
+Fixpoint rev_claim_failed (l : list ev) : bool :=
+  match l with
+  | [] => false
+  | e :: l' =>
+      (match is_api e with
+       | Some q =>
+           String.eqb (q_res q) rev_res && verb_eqb (q_verb q) VUpdate && negb (accepted e) &&
+           negb (match fail_class e with Some ENotFound | Some EGone => true | _ => false end) &&
+           negb (existsb (fun e' => match is_api e' with
+                                    | Some q' => String.eqb (q_res q') rev_res && verb_eqb (q_verb q') VUpdate &&
+                                                 String.eqb (q_name q') (q_name q) && String.eqb (q_ns q') (q_ns q) && accepted e'
+                                    | None => false end) l')
+       | None => false end) || rev_claim_failed l'
+  end.
+
 Definition C09_round (c : ccfg) (r : round) : option string :=
   let evs := after_hook (r_events r) in
   let revw := rev_events evs in
+  if rev_claim_failed (before_hook (r_events r)) && existsb (is_child_content_write c) evs
+  then Some "child-touched-although-revision-claim-failed" else
+  (* the interrupted sync is retried: nothing else would (ControllerRevision events wake no parent) *)
+  if (rev_claim_failed (before_hook (r_events r)) || existsb (fun e => negb (accepted e)) revw) &&
+     negb (qhas (r_queue r) "AddRateLimited" (r_key r)) && negb (sync_result_eqb (r_result r) SPanic)
+  then Some "sync-interrupted-by-a-failed-revision-write-not-requeued" else
   match before_each (fun seen e =>
           if String.eqb (match is_api e with Some q => q_res q | None => "" end) rev_res &&
              match is_api e with Some q => is_write q | None => false end &&
